@@ -85,6 +85,16 @@ def project(weights,
           shape=(weights.shape[0], 1))
       weights = tf.minimum(weights, weights * inverted_decreasing_mask)
 
+  if normalization_order:
+    # If clipping removed every weight there is nothing left to normalize:
+    # restart from equal weights which satisfy the monotonicity constraints.
+    signs = tf.constant(
+        value=[-1.0 if m == -1 else 1.0 for m in monotonicities],
+        dtype=weights.dtype,
+        shape=(weights.shape[0], 1))
+    norm = tf.norm(weights, axis=0, ord=normalization_order)
+    weights = tf.where(norm < _NORMALIZATION_EPS, signs, weights)
+
   if monotonic_dominances:
     monotonic_dominances = [(j, i) for i, j in monotonic_dominances]
     weights = internal_utils.approximately_project_categorical_partial_monotonicities(
